@@ -5,6 +5,7 @@
    the model (integers / dyadic rationals in the implementation; see DESIGN.md trusted base). *)
 From Coq Require Import List ZArith QArith.
 Import ListNotations.
+From Eudoxia Require Import Model.Sched Model.Simulator Proofs.PriorityPoolRunFacts Proofs.SimReachFacts.
 From Eudoxia Require Import Model.Types Model.Lifecycle Model.Container Model.Pool Model.Executor
   Proofs.ConserveFacts.
 
@@ -72,3 +73,32 @@ Example C03_witness_reach :
   reach_exec Examples.ex_cfg Examples.ex_s0 Examples.ex_s2 /\ e_next Examples.ex_s2 = 2
   /\ length Examples.ex_res2 = 1.
 Proof. exact Examples.ex_reach. Qed.
+
+(* Simulator level: conservation at every tick boundary of every full simulation under every shipped
+   scheduler [a] (naive, starter, overbook, priority, priority-pool), any number of pools, any arrivals,
+   any static data: the executor state of every simulator state is [reach_exec]-reachable
+   (Proofs/SimReachFacts.v: one simulator tick is one [exec_step]) *)
+Theorem C03_sim_conservation : forall C a np cpu ram t s p,
+  (0 <= cpu)%Z -> (0 <= ram)%Q ->
+  sim_reach C a 0%Z (init_sim C np cpu ram) t s -> In p (e_pools (sm_exec s)) ->
+  (p_avail_cpu p + sumZ (map c_cpu (p_active p ++ p_suspending p)) = cpu)%Z /\
+  (p_avail_ram p + sumQ (map c_ram (p_active p ++ p_suspending p)) == ram)%Q /\
+  (0 <= p_avail_cpu p <= cpu)%Z /\
+  (cf_overcommit C = false -> (0 <= p_avail_ram p <= ram)%Q).
+Proof. exact sim_conservation. Qed.
+Print Assumptions C03_sim_conservation.
+
+(* the link itself, also for the state [sim_run] ends in *)
+Theorem C03_sim_states_reachable : forall C a np cpu ram arrivals sf logs oe,
+  sim_run C a 0%Z (init_sim C np cpu ram) arrivals = (sf, logs, oe) ->
+  reach_exec C (init_estate C np cpu ram) (sm_exec sf).
+Proof. exact sim_run_conserve. Qed.
+Print Assumptions C03_sim_states_reachable.
+
+(* non-vacuity: two pools of 10 CPUs / 10 GB under each scheduler, state after three ticks (one live
+   container under naive, priority and priority-pool) *)
+Example C03_sim_witness : forall a p,
+  In p (e_pools (sm_exec (SimReachExamples.mid a))) ->
+  (p_avail_cpu p + sumZ (map c_cpu (p_active p ++ p_suspending p)) = 10)%Z /\
+  (p_avail_ram p + sumQ (map c_ram (p_active p ++ p_suspending p)) == 10)%Q.
+Proof. exact SimReachExamples.mid_conservation. Qed.
